@@ -346,8 +346,19 @@ func TestCliTmpl(t *testing.T) {
 			var times []int64
 			var xids []uint32
 			var wire, built [][]byte
+			// in a third of the runs one write blocks for a while (a full device queue, a paused process): the sender's pacing
+			// starts when the write returns; what is on the wire must still be at least 700 ms apart
+			stallAt, stallFor := 0, time.Duration(0)
+			if r.Chance(33) {
+				stallAt, stallFor = 1+r.Intn(3), Pick(r, 1500*time.Millisecond, 4500*time.Millisecond, 30*time.Second)
+			}
+			var rets []int64
 			seg.OnSend = func(f rsocks.Frame) {
 				if f.Proto == 0x0800 {
+					defer func() { rets = append(rets, time.Now().UnixNano()) }()
+					if len(times)+1 == stallAt {
+						defer time.Sleep(stallFor)
+					}
 					wire = append(wire, append([]byte(nil), f.Payload...))
 					times = append(times, time.Now().UnixNano())
 					xids = append(xids, uint32(f.Payload[32])<<24|uint32(f.Payload[33])<<16|uint32(f.Payload[34])<<8|uint32(f.Payload[35]))
@@ -386,6 +397,9 @@ func TestCliTmpl(t *testing.T) {
 			synctest.Wait()
 			prev := int64(700 * time.Millisecond)
 			hist := []string{fmt.Sprintf("sendMessage (%s) for %v: %d transmissions", st, dur, len(times))}
+			if stallAt > 0 {
+				hist = append(hist, fmt.Sprintf("write %d blocks for %v", stallAt, stallFor))
+			}
 			for k := range wire { // the sender may build a message it does not send (to learn the addresses); what it sends must be one it built
 				found := false
 				for _, bb := range built {
@@ -397,13 +411,13 @@ func TestCliTmpl(t *testing.T) {
 					break
 				}
 			}
-			for k := 1; k < len(times); k++ {
-				gap := times[k] - times[k-1]
+			for k := 1; k < len(times) && k-1 < len(rets); k++ {
+				gap := times[k] - rets[k-1] // the sender's pacing: from the return of one write to the next write
 				op := fmt.Sprintf("delayok prev=%d next=%d", prev, gap)
 				s.Op(op, "ok", true)
 				hist = append(hist, op)
-				if gap < int64(700*time.Millisecond) {
-					s.Find(Finding{Property: "C16", Signature: "retrans-too-fast", Stream: "clitmpl", What: "two transmissions of one exchange less than 700 ms apart", Ops: hist, Observed: fmt.Sprint(gap)})
+				if times[k]-times[k-1] < int64(700*time.Millisecond) {
+					s.Find(Finding{Property: "C16", Signature: "retrans-too-fast", Stream: "clitmpl", What: "two transmissions of one exchange less than 700 ms apart", Ops: hist, Observed: fmt.Sprint(times[k] - times[k-1])})
 				}
 				if gap < prev {
 					s.Find(Finding{Property: "C16", Signature: "retrans-shrinks", Stream: "clitmpl", What: "retransmission spacing decreased", Ops: hist, Observed: fmt.Sprintf("%d after %d", gap, prev)})
@@ -417,6 +431,7 @@ func TestCliTmpl(t *testing.T) {
 				s.Find(Finding{Property: "C16", Signature: "retrans-after-end", Stream: "clitmpl", What: "transmissions continue after the exchange ended", Ops: hist})
 			}
 			s.Count(fmt.Sprintf("retrans/n=%d", min(len(times)/5*5, 30)))
+			s.Count(fmt.Sprintf("retrans/stalled-write=%v", stallAt > 0 && stallAt <= len(times)))
 		})
 	}
 }
